@@ -264,7 +264,7 @@ func (g *asgGen) history(n int, doc any) []Stmt {
 
 func noPinned(tags map[string]bool) bool {
 	for t := range tags {
-		if strings.HasPrefix(t, "pinned:") || t == "alias_resize" {
+		if strings.HasPrefix(t, "pinned:") { // "alias_resize" is a statistic only: a length change is seen through every reference (section 3.5)
 			return false
 		}
 	}
@@ -390,7 +390,7 @@ func c09ReadOnly(c *Case) {
 	c.Held()
 }
 
-// ---- alias_resize slice (expected: known finding K-ALIAS)
+// ---- length changes through one of two references (was known finding K-ALIAS until the repair)
 
 var c09AliasForms = []string{
 	"BEGIN { a = [1, 2]; b = a; a.push(3); print json(b), b.length() }",
